@@ -13,8 +13,12 @@ ID = 'C15'
 RULE = ('rasters <= 12x12 (mostly <= 8x8) over alphabets of 1-4 values from structured generators (uniform noise, smoothed '
         'blobs, concentric nested rings, spirals, random spanning-tree mazes and combs = U-shapes needing multi-level merges, '
         'holes touching the border, checkerboards / diagonal lines = 8-connected pinches, > 64 provisional region ids = lookup resize, 2xN combs with N near 63/64/127/128 whose last merge lands in the last slot of region_lookup) plus noise, shapes 1x1, 1xN, Nx1, 2xN; '
-        'int32/int64/uint8/uint32/float32/float64 rasters (float values dyadic, spaced >= 0.25 so _is_close is equality); mask '
-        'absent / all-true / random / structured / all-false with bool/int/float mask dtype; connectivity 4 and 8; transform absent '
+        'int8/16/32/64, uint8/16/32/64, bool, float32/float64 rasters (quick: int32/int64/uint8 + one further width per seed) (float values dyadic, spaced >= 0.25 so _is_close is equality); mask '
+        'absent / all-true / random / structured / all-false with bool/int/float mask dtype, "include" = any truthy value (2, -1, 255, 0.5, NaN); '
+        'long thin rasters (1..3 x 13..90, thorough ..300 and 13..30 squared), > 128 provisional ids; close-but-unequal floats inside the '
+        'documented tolerance (oracle uses tolerance classes); transforms also non-dyadic / passed as list, int array, float32 array; '
+        'DataArrays with named dims, coords, attrs; rejected arguments (connectivity not 4/8, mask shape, transform length, return_type, ndim) must raise ValueError; '
+        ' connectivity 4 and 8; transform absent '
         'or dyadic affine (scales, flips, rotations, shears, offsets); values and mask independently in memory layout C / Fortran copy / '
         'transposed view / strided view / transposed strided view; integer rasters with large ids differing by 1 (1e5, 5e6, 4e9); '
         ' 30% of the float rasters get +inf/-inf/NaN cells (inf equals only '
@@ -138,7 +142,8 @@ def oracle_polygons(case, column, polys):
     vals, mask = [[num(v) for v in row] for row in case['values']], case['mask']
     ny, nx = case['ny'], case['nx']
     conn8 = case['connectivity'] == 8
-    lab, ncomp = components(vals, mask, conn8)
+    classes = case.get('classes')     # close-but-unequal floats: equality = the documented np.isclose-style tolerance class
+    lab, ncomp = components(classes if classes is not None else vals, mask, conn8)
     if len(column) != len(polys):
         return 'column has %d entries for %d polygons' % (len(column), len(polys))
     for k, rings in enumerate(polys):
@@ -166,8 +171,10 @@ def oracle_polygons(case, column, polys):
     owner = [[[] for _ in range(nx)] for _ in range(ny)]
     for k, rings in enumerate(fr):
         cnt = 0
-        for j in range(ny):
-            for i in range(nx):
+        xs = [x for x, _ in rings[0]]
+        ys = [y for _, y in rings[0]]
+        for j in range(max(0, min(ys)), min(ny, max(ys))):
+            for i in range(max(0, min(xs)), min(nx, max(xs))):
                 cx, cy = 2 * i + 1, 2 * j + 1
                 if ring_contains(rings[0], cx, cy) and not any(ring_contains(h, cx, cy) for h in rings[1:]):
                     owner[j][i].append(k)
@@ -186,7 +193,10 @@ def oracle_polygons(case, column, polys):
             if len(own) != 1:
                 return 'unmasked cell (row %d, col %d) lies in %d polygons %r (must be exactly one)' % (j, i, len(own), own)
             k = own[0]
-            if not same_value(column[k], vals[j][i]):
+            if classes is not None:
+                if not abs(column[k] - vals[j][i]) <= 1e-8 + 1.2e-5 * abs(vals[j][i]):
+                    return 'cell (row %d, col %d) has value %r but its polygon %d carries the non-close value %r' % (j, i, vals[j][i], k, column[k])
+            elif not same_value(column[k], vals[j][i]):
                 return 'cell (row %d, col %d) has value %r but its polygon %d carries value %r' % (j, i, vals[j][i], k, column[k])
             if comp_of_poly.setdefault(k, lab[j][i]) != lab[j][i]:
                 return 'polygon %d covers cells of two different connected regions (cell row %d col %d)' % (k, j, i)
@@ -199,7 +209,8 @@ def oracle_polygons(case, column, polys):
 
 def oracle_regions(case, regions):
     """region ids: 0 exactly on masked cells; same id iff same flood-fill component"""
-    lab, ncomp = components([[num(v) for v in row] for row in case['values']], case['mask'], case['connectivity'] == 8)
+    lab, ncomp = components(case.get('classes') or [[num(v) for v in row] for row in case['values']], case['mask'],
+                            case['connectivity'] == 8)
     nx = case['nx']
     m = {}
     inv = {}
@@ -246,19 +257,33 @@ def with_layout(a, layout):
 
 
 def arrays_of(case):
-    a = np.array([[num(v) for v in row] for row in case['values']], dtype='float64').reshape(case['ny'], case['nx']).astype(case['dtype'])
+    if case['dtype'].startswith('float'):
+        a = np.array([[num(v) for v in row] for row in case['values']], dtype='float64').reshape(case['ny'], case['nx']).astype(case['dtype'])
+    else:       # exact for ids beyond 2^53
+        a = np.array([[int(v) for v in row] for row in case['values']], dtype=case['dtype']).reshape(case['ny'], case['nx'])
     a = with_layout(a, case.get('layout', 'C'))
     m = None
     if case['mask'] is not None:
-        m = np.array(case['mask'], dtype='int64').reshape(case['ny'], case['nx']).astype(case['mask_dtype'])
+        m = np.array([[num(b) for b in row] for row in case['mask']], dtype='float64').reshape(case['ny'], case['nx']).astype(case['mask_dtype'])
         m = with_layout(m, case.get('mask_layout', 'C'))
     return a, m
 
 
 def run_impl(pz, case, transform):
     a, m = arrays_of(case)
-    tr = None if transform is None else np.array(transform, dtype='float64')
-    col, polys = pz.polygonize(xr.DataArray(a), mask=None if m is None else xr.DataArray(m),
+    tr = None
+    if transform is not None:
+        kind = case.get('transform_as', 'f64')
+        tr = list(transform) if kind == 'list' else np.array(transform, dtype='int64') if kind == 'int' else \
+            np.array(transform, dtype='float32') if kind == 'f32' else np.array(transform, dtype='float64')
+
+    def wrap(x):
+        if case.get('xr', 'plain') == 'coords':     # named dims, descending y / scaled x coordinates, attrs, name: all ignored
+            return xr.DataArray(x, dims=['lat', 'lon'], name='band',
+                                coords={'lat': [50.0 - 0.25 * j for j in range(x.shape[0])], 'lon': [7.5 + 2 * i for i in range(x.shape[1])]},
+                                attrs={'res': 0.25, 'crs': 'EPSG:4326', 'nodata': -1})
+        return xr.DataArray(x)
+    col, polys = pz.polygonize(wrap(a), mask=None if m is None else wrap(m),
                                connectivity=case['connectivity'], transform=tr, return_type='numpy')
     col = [v.item() if hasattr(v, 'item') else v for v in col]
     polys = [[[(float(p[0]), float(p[1])) for p in np.asarray(ring).reshape(-1, 2)] for ring in rings] for rings in polys]
@@ -284,14 +309,17 @@ def pow2_scale(xs):
 
 def model_lines(case):
     """(poly line, regions line or None, value scale, transform scale)"""
-    flat = [v for row in case['values'] for v in row]
+    flat = [v for row in (case.get('classes') or case['values']) for v in row]
     vs = pow2_scale([v for v in flat if not isinstance(v, str)])
+
+    def ztok(z):
+        return str(z) if abs(z) < 2 ** 60 else ('-0x%x' % -z if z < 0 else '0x%x' % z)
     toks = []
     for k, v in enumerate(flat):
         if isinstance(v, str):
             toks.append(str(BIG if v == 'inf' else -BIG if v == '-inf' else 2 * BIG + k))
         else:
-            toks.append(str(int(Fraction(v) * vs)))
+            toks.append(ztok(int(Fraction(v) * vs)))
     zs = ' '.join(toks)
     ms = ''
     if case['mask'] is not None:
@@ -318,7 +346,7 @@ def parse_model_poly(out):
     n = int(next(it))
     col, polys = [], []
     for _ in range(n):
-        col.append(int(next(it)))
+        col.append(int(next(it), 0))
         rings = []
         for _ in range(int(next(it))):
             npts = int(next(it))
@@ -339,7 +367,7 @@ def compare_poly(case, impl, model_out, vs, ts):
         if v in (float('inf'), float('-inf')):
             return z == (BIG if v > 0 else -BIG)
         return Fraction(v) * vs == z
-    if len(col) != len(mcol) or not all(col_ok(v, z) for v, z in zip(col, mcol)):
+    if case.get('classes') is None and (len(col) != len(mcol) or not all(col_ok(v, z) for v, z in zip(col, mcol))):
         return 'value column differs: implementation %r vs model %r (scale %d)' % (col, mcol, vs)
     if len(polys) != len(mpolys):
         return 'polygon count differs: %d vs %d' % (len(polys), len(mpolys))
@@ -518,10 +546,10 @@ def g_border_holes(rng, ny, nx, k):
     return g
 
 
-def g_growth(rng, ny, nx, k):
+def g_growth(rng, ny, nx, k, ids=70):
     """> 64 provisional region ids (a 3-colour pattern in which no cell equals its W or S neighbour) below a maze / comb whose
     merges then involve ids >= 64: exercises the resize of region_lookup in _merge_regions"""
-    h = min(ny - 2, max(6, 70 // nx + 1))
+    h = min(ny - 2, max(6, ids // nx + 1))
     g = [[(i + 2 * j) % 3 for i in range(nx)] for j in range(h)]
     top = (g_maze if rng.random() < 0.5 else g_comb)(rng, ny - h, nx, 2)
     if rng.random() < 0.5:
@@ -555,8 +583,14 @@ GENS = [('uniform', g_uniform), ('blobs', g_blobs), ('nested', g_nested), ('spir
         ('comb', g_comb), ('pinch', g_pinch), ('border-holes', g_border_holes)]
 
 
-def gen_shape(rng, big):
+def gen_shape(rng, big, thorough=False):
     u = rng.random()
+    if u < 0.025:        # long thin rasters (region_lookup is sized max(64, nx, ny); many provisional ids in one row / column)
+        n = rng.randint(13, 300 if thorough else 90)
+        w = rng.choice([1, 1, 2, 3])
+        return (w, n) if rng.random() < 0.5 else (n, w)
+    if thorough and u < 0.035:   # larger than 12x12
+        return rng.randint(13, 30), rng.randint(13, 30)
     if u < 0.06:
         return 1, rng.randint(1, 12)
     if u < 0.12:
@@ -607,6 +641,7 @@ def gen_mask(rng, ny, nx):
 
 
 TRANSFORMS = [
+    [0.1, 0, 0.3, 0, 1 / 3, -0.7], [30.5, 0, 500000.123, 0, -30.5, 4000000.7], [0.1, 0.2, 0.3, -0.2, 0.1, 0.001],
     [1, 0, 50, 0, 1, 40], [1, 0, 0.5, 0, 1, 0.5], [1, 0, -3, 0, 1, 0], [1, 0, 0, 0, 1, 7],
     [1, 0, 0, 0, 1, 0], [2, 0, 10, 0, 3, -5], [1, 0, 100, 0, -1, 50], [-1, 0, 0, 0, -1, 0], [0, -1, 7, 1, 0, -3],
     [0.5, 0, 0.25, 0, 0.5, -0.75], [1, 1, 0, 0, 1, 0], [30, 0, 500000, 0, -30, 4000000], [0.25, -0.5, 3, 1.5, 2, -8],
@@ -614,12 +649,16 @@ TRANSFORMS = [
 ]
 
 
-def gen_case(rng, combos, big=0.06):
-    ny, nx = gen_shape(rng, big)
+def gen_case(rng, combos, big=0.06, thorough=False):
+    ny, nx = gen_shape(rng, big, thorough)
     k = rng.choice([1, 2, 2, 2, 3, 3, 4])
     name, g = rng.choice(GENS)
     if rng.random() < 0.03:
         name, g, ny, nx = 'growth', g_growth, rng.randint(10, 13), rng.randint(10, 12)
+        if thorough and rng.random() < 0.5:       # > 128 and > 256 provisional ids: two / three resizes of region_lookup
+            ids = rng.choice([130, 140, 200, 260, 300])
+            ny, nx = ids // 12 + rng.randint(6, 9), 12
+            g = (lambda r, a, b, c: g_growth(r, a, b, c, ids=ids))
     elif rng.random() < 0.01:
         grid0 = g_lastslot(rng)
         name, g, ny, nx = 'last-slot', (lambda r, a, b, c: [row[:] for row in grid0]), 2, len(grid0[0])
@@ -631,7 +670,22 @@ def gen_case(rng, combos, big=0.06):
     mask, mkind = (None, 'none') if mask_dtype is None else gen_mask(rng, ny, nx)
     if mask_dtype is not None and mask is None:
         mask, mkind = [[1 if rng.random() < 0.85 else 0 for _ in range(nx)] for _ in range(ny)], 'random'
-    if dtype.startswith('float'):
+    classes = None
+    if dtype.startswith('float') and rng.random() < 0.07:
+        # close-but-unequal floats: cells of one class differ by < 7e-6 relative (inside the documented rtol=1e-5 of _is_close,
+        # in both directions), classes are far apart: "equal value" means "same class"
+        classes = [row[:] for row in grid]
+        grid = [[(2 + 1.5 * v) * (1 + rng.choice([0, 2e-6, -3e-6, 4e-6])) for v in row] for row in grid]
+        if dtype == 'float32':
+            grid = [[float(np.float32(v)) for v in row] for row in grid]
+        name += '+close-floats'
+    elif dtype == 'bool':
+        grid = [[v % 2 for v in row] for row in grid]
+    elif dtype in ('int8', 'int16', 'uint16', 'uint64'):
+        off = rng.choice({'int8': [0, -128, 120, -3], 'int16': [0, -32768, 32000, 1000], 'uint16': [0, 65000, 7],
+                          'uint64': [0, 2 ** 63, 2 ** 64 - 8, 100000]}[dtype])
+        grid = [[off + v for v in row] for row in grid]
+    elif dtype.startswith('float'):
         off = rng.choice([0, -1, 0.5, -2.25])
         step = rng.choice([0.25, 0.5, 1, 1.5])
         grid = [[off + step * v for v in row] for row in grid]
@@ -642,7 +696,7 @@ def gen_case(rng, combos, big=0.06):
             name += '+nonfinite'
     elif dtype.startswith('int'):
         # large adjacent ids differ by 1: closer than the float tolerance rtol=1e-5, must still be distinct regions
-        off = rng.choice([0, 0, -2, 7, 1000, 100000, 5000000, -300000])
+        off = rng.choice([0, 0, -2, 7, 1000, 100000, 5000000, -300000] + ([2 ** 62, -2 ** 63] if dtype == 'int64' else [2 ** 31 - 8]))
         grid = [[off + v for v in row] for row in grid]
     else:
         off = rng.choice([0, 0, 5, 250]) if dtype == 'uint8' else rng.choice([0, 5, 250, 100000, 4000000000])
@@ -651,11 +705,22 @@ def gen_case(rng, combos, big=0.06):
     if tr is not None and rng.random() < 0.3:
         tr = [rng.choice([-2, -1, -0.5, 0, 0.5, 1, 2, 3]) for _ in range(4)] + [rng.randint(-20, 20) / 4.0 for _ in range(2)]
         tr = [tr[0], tr[1], tr[4], tr[2], tr[3], tr[5]]
+    if mask is not None and mask_dtype in ('int64', 'uint8', 'float64') and rng.random() < 0.3:
+        # "include" need not be exactly 1: any truthy value (the code tests `not mask[ij]`)
+        truthy = {'int64': [1, 2, -1, 255, -7], 'uint8': [1, 2, 255], 'float64': [1.0, 0.5, -2.0, 'nan', 'inf']}[mask_dtype]
+        mask = [[rng.choice(truthy) if b else 0 for b in row] for row in mask]
+        mkind += '+truthy'
+    tr_as = 'f64'
+    if tr is not None:
+        u = rng.random()
+        tr_as = 'f64' if u < 0.6 else 'list' if u < 0.75 else 'f32' if u < 0.85 else \
+            'int' if all(float(t).is_integer() for t in tr) else 'list'
     layout = 'C' if rng.random() < 0.55 else rng.choice(LAYOUTS[1:])
     mask_layout = 'C' if (mask is None or rng.random() < 0.55) else rng.choice(LAYOUTS[1:])
     return dict(family=name, ny=ny, nx=nx, values=grid, dtype=dtype, mask=mask, mask_dtype=mask_dtype, mask_kind=mkind,
                 connectivity=rng.choice([4, 8]), transform=None if tr is None else [float(t) for t in tr],
-                layout=layout, mask_layout=mask_layout)
+                layout=layout, mask_layout=mask_layout, transform_as=tr_as, xr='coords' if rng.random() < 0.25 else 'plain',
+                **({'classes': classes} if classes is not None else {}))
 
 
 # (raster dtype, mask dtype or None, with transform) — each distinct triple costs one Numba compilation (~1.5 s)
@@ -663,6 +728,10 @@ QUICK_COMBOS = [('int64', None, False), ('int64', 'bool', True), ('float64', Non
                 ('float32', 'int64', False), ('uint8', None, False), ('int32', 'bool', False)]
 THOROUGH_COMBOS = [(d, m, t) for d in INT_DTYPES + FLOAT_DTYPES for m in (None, 'bool', 'int64', 'uint8', 'float64')
                    for t in (False, True) if not (m in ('uint8', 'float64') and d in ('uint32', 'int32'))]
+
+
+EXTRA_DTYPES = ['int8', 'int16', 'uint16', 'uint64', 'bool']
+THOROUGH_COMBOS += [(d, m, t) for d in EXTRA_DTYPES for (m, t) in ((None, False), ('bool', True), ('int64', False))]
 
 
 def exhaustive_cases(max_cells, max_cells_masked):
@@ -747,13 +816,18 @@ def check_case(ctx, pz, case, pending, use_model=True):
         ctx.violation('oracle', 'polygonize raised %s: %s' % (type(e).__name__, e), case)
         return
     key = INF_KEY if has_inf(case) else None
-    if not case['dtype'].startswith('float') and not all(isinstance(v, int) and not isinstance(v, bool) for v in col):
+    if case['dtype'] == 'bool':
+        if not all(isinstance(v, bool) for v in col):
+            ctx.violation('oracle', 'bool raster but the returned value column holds %r' % ([type(v).__name__ for v in col][:6],),
+                          dict(case, got_column=col))
+    elif not case['dtype'].startswith('float') and not all(isinstance(v, int) and not isinstance(v, bool) for v in col):
         ctx.violation('oracle', 'integer raster (%s) but the returned value column holds non-integer entries %r' % (
             case['dtype'], [type(v).__name__ for v in col][:6]), dict(case, got_column=col))
     bad = oracle_polygons(case, col, polys)
     if bad:
         ctx.violation('oracle', bad, dict(case, got_column=col, got_polygons=polys), key=key)
     impl_t = None
+    case_m = case
     if case['transform'] is not None:
         try:
             with wd.watch(case):
@@ -762,11 +836,28 @@ def check_case(ctx, pz, case, pending, use_model=True):
             ctx.violation('oracle', 'polygonize with transform raised %s: %s' % (type(e).__name__, e), case)
             return
         impl_t = (colt, polyst)
-        t = [Fraction(x) for x in case['transform']]
-        exp = [[[(t[0] * Fraction(x) + t[1] * Fraction(y) + t[2], t[3] * Fraction(x) + t[4] * Fraction(y) + t[5])
-                 for x, y in ring] for ring in rings] for rings in polys]
-        got = [[[(Fraction(x), Fraction(y)) for x, y in ring] for ring in rings] for rings in polyst]
-        if len(colt) != len(col) or not all(same_value(a, b) for a, b in zip(colt, col)) or got != exp:
+        seen = [float(np.float32(x)) for x in case['transform']] if case.get('transform_as') == 'f32' else [float(x) for x in case['transform']]
+        try:
+            pow2_scale(seen)
+            dyadic = True
+        except ValueError:
+            dyadic = False
+        if dyadic:
+            t = [Fraction(x) for x in seen]
+            exp = [[[(t[0] * Fraction(x) + t[1] * Fraction(y) + t[2], t[3] * Fraction(x) + t[4] * Fraction(y) + t[5])
+                     for x, y in ring] for ring in rings] for rings in polys]
+            got = [[[(Fraction(x), Fraction(y)) for x, y in ring] for ring in rings] for rings in polyst]
+            same_pts = got == exp
+        else:       # non-dyadic coefficients: the documented formula in float64, compared up to rounding
+            t = seen
+            exp = [[[(t[0] * x + t[1] * y + t[2], t[3] * x + t[4] * y + t[5]) for x, y in ring] for ring in rings] for rings in polys]
+            same_pts = [[len(r) for r in rings] for rings in exp] == [[len(r) for r in rings] for rings in polyst] and all(
+                abs(gx - ex) <= 1e-11 * (1 + abs(ex)) and abs(gy - ey) <= 1e-11 * (1 + abs(ey))
+                for re_, rg in zip(exp, polyst) for a_, b_ in zip(re_, rg) for (ex, ey), (gx, gy) in zip(a_, b_))
+        case_m = dict(case, transform=seen) if dyadic else dict(case, transform=None)
+        if not dyadic:
+            impl_t = None
+        if len(colt) != len(col) or not all(same_value(a, b) for a, b in zip(colt, col)) or not same_pts:
             ctx.violation('oracle', 'transform %r is not applied to every vertex of the untransformed output' % (case['transform'],),
                           dict(case, got_polygons=polyst, untransformed=polys))
     regions = None
@@ -781,7 +872,7 @@ def check_case(ctx, pz, case, pending, use_model=True):
             if bad:
                 ctx.violation('oracle', '_calculate_regions: ' + bad, dict(case, got_regions=regions), key=key)
     if use_model and ctx.model is not None:
-        pl, rl, vs, ts = model_lines(case)
+        pl, rl, vs, ts = model_lines(case_m)
         pending.append(('poly', pl, case, impl_t if impl_t is not None else (col, polys), vs, ts))
         if rl is not None and regions is not None:
             pending.append(('regions', rl, case, regions, vs, ts))
@@ -806,6 +897,44 @@ def flush(ctx, pending):
     del pending[:]
 
 
+def check_malformed(ctx, pz, only=None):
+    """arguments outside the documented domain must be rejected (ValueError), never silently reinterpreted;
+    4.0 / 8.0 compare equal to 4 / 8 and behave like them"""
+    base = np.array([[1, 1, 2], [1, 2, 2]])
+    da = xr.DataArray(base)
+    bad = [('connectivity=%r' % (c,), dict(connectivity=c)) for c in (0, 1, 6, 16, -8, '8', None, True, 4.5)]
+    bad += [('mask shape (3, 2)', dict(mask=xr.DataArray(np.ones((3, 2), dtype=bool)))),
+            ('mask shape (2,)', dict(mask=xr.DataArray(np.ones((2,), dtype=bool)))),
+            ('transform length 5', dict(transform=[1, 0, 0, 0, 1])), ('transform length 7', dict(transform=[1, 0, 0, 0, 1, 0, 0])),
+            ('transform shape (2, 3)', dict(transform=np.array([[1, 0, 0], [0, 1, 0]]))),
+            ('return_type shapely', dict(return_type='shapely')), ('return_type NUMPY', dict(return_type='NUMPY'))]
+    rasters = [('raster ndim 3', np.zeros((2, 2, 2))), ('raster ndim 1', np.zeros((4,))), ('raster shape (0, 3)', np.zeros((0, 3))),
+               ('raster shape (3, 0)', np.zeros((3, 0)))]
+    for label, kw in bad + [(l, None) for l, _ in rasters]:
+        if only is not None and label != only:
+            continue
+        case = dict(family='malformed', label=label)
+        ctx.case(case)
+        ctx.count('malformed')
+        try:
+            if kw is None:
+                pz.polygonize(xr.DataArray(dict(rasters)[label]))
+            else:
+                pz.polygonize(da, **kw)
+            ctx.violation('oracle', 'polygonize accepted %s (must raise ValueError)' % label, case)
+        except ValueError:
+            pass
+        except Exception as e:
+            ctx.violation('oracle', 'polygonize raised %s instead of ValueError for %s: %s' % (type(e).__name__, label, str(e)[:200]), case)
+    if only is None:
+        for c in (4.0, 8.0):
+            got = pz.polygonize(xr.DataArray(np.array([[1, 2], [2, 1]])), connectivity=c)
+            ref = pz.polygonize(xr.DataArray(np.array([[1, 2], [2, 1]])), connectivity=int(c))
+            if len(got[1]) != len(ref[1]):
+                ctx.violation('oracle', 'connectivity=%r gives %d polygons, connectivity=%d gives %d' % (c, len(got[1]), int(c), len(ref[1])),
+                              dict(family='malformed', label='connectivity=%r' % c))
+
+
 FIXED = [
     # named hard cases: 8-connected pinch, diamond with enclosed centre, U needing a two-level merge, hole on the border
     dict(values=[[1, 2], [2, 1]]), dict(values=[[0, 1, 0], [1, 0, 1], [0, 1, 0]]),
@@ -828,6 +957,15 @@ def run(ctx):
     rng = ctx.rng
     pending = []
     combos = QUICK_COMBOS if ctx.quick() else THOROUGH_COMBOS
+    if ctx.quick():     # one further dtype per seed (each costs a Numba compilation): int8, int16, uint16, uint64, bool over seeds
+        combos = combos + [(EXTRA_DTYPES[ctx.seed % len(EXTRA_DTYPES)], None, False)] * 2
+    check_malformed(ctx, pz)
+    # > 128 provisional region ids below a maze: region_lookup is resized twice
+    for conn in (4, 8):
+        case = dict(family='growth2', ny=18, nx=12, values=g_growth(rng, 18, 12, 2, ids=140), dtype='int64', mask=None, mask_dtype=None,
+                    mask_kind='none', connectivity=conn, transform=None)
+        ctx.count('growth2/conn%d' % conn)
+        check_case(ctx, pz, case, pending)
     for v in NONFINITE_FIXED:
         for conn in (4, 8):
             case = dict(family='fixed+nonfinite', ny=len(v), nx=len(v[0]), values=v, dtype='float64', mask=None, mask_dtype=None,
@@ -879,9 +1017,9 @@ def run(ctx):
                             connectivity=conn, transform=None)
                 ctx.count('last-slot/N=%d/conn%d' % (N, conn))
                 check_case(ctx, pz, case, pending)
-    n = 2400 if ctx.quick() else 20000
+    n = 2100 if ctx.quick() else 20000
     for t in range(n):
-        case = gen_case(rng, combos)
+        case = gen_case(rng, combos, thorough=not ctx.quick())
         ctx.count('%s/conn%d/%s/%s/mask-%s%s' % (case['family'], case['connectivity'],
                                                  'col' if case['nx'] == 1 else 'row' if case['ny'] == 1 else 'grid',
                                                  'float' if case['dtype'].startswith('f') else 'int', case['mask_kind'],
@@ -911,7 +1049,8 @@ def search(ctx):
     ctx.model = None
     try:
         for t in range(30000):
-            check_case(ctx, pz, gen_case(ctx.rng, QUICK_COMBOS, big=0.15), pending, use_model=False)
+            check_case(ctx, pz, gen_case(ctx.rng, QUICK_COMBOS + [(d, None, False) for d in EXTRA_DTYPES], big=0.15, thorough=True),
+                       pending, use_model=False)
             if any(v['kind'] == 'oracle' for v in ctx.violations):
                 break
         for case in exhaustive_cases(12, 8):
@@ -924,10 +1063,10 @@ def search(ctx):
 
 def replay_case(ctx, case):
     pz = _impl()
-    case0 = case
-    case = {k: case[k] for k in ('family', 'ny', 'nx', 'values', 'dtype', 'mask', 'mask_dtype', 'mask_kind', 'connectivity', 'transform')}
-    case['layout'] = case0.get('layout', 'C')
-    case['mask_layout'] = case0.get('mask_layout', 'C')
+    if case.get('family') == 'malformed':
+        check_malformed(ctx, pz, only=case.get('label'))
+        return
+    case = {k: v for k, v in case.items() if not k.startswith('got_') and k not in ('untransformed', 'model')}
     pending = []
     check_case(ctx, pz, case, pending)
     flush(ctx, pending)
